@@ -1,6 +1,6 @@
-(** C33 — histories: receive paths are total under recover (up to the
-    out-of-memory window), the pending loop can only die on a group overrun,
-    and it never dies when groups fit. *)
+(** C33 — histories: receive paths are total under recover (given memory for a
+    slice as long as the received hash list), an iteration of the pending loop
+    always completes, no history ends the process. *)
 From Coq Require Import List ZArith NArith Bool Lia.
 From C33 Require Import C33.Model C33.ProofsBase C33.ProofsMain.
 Import ListNotations.
@@ -13,27 +13,26 @@ Definition under_recover (ev : event) : bool :=
   | _ => false
   end.
 
-(** the light block's TxCount is not in the window where make neither panics
-    nor succeeds: cap < TxCount <= 2^45 *)
+(** the operating system can provide a slice with one element per short hash
+    of the light block the node has just decoded (addLtBlock sizes its three
+    allocations with TxCount only after TxCount <= len(STxHashes) was tested) *)
 Definition mem_ok (c : config) (ev : event) : bool :=
   match ev with
-  | ERecvLt _ _ _ lb =>
-      match lt_hdr lb with
-      | Some h => negb ((c_cap c <? h_txcount h) && (h_txcount h <=? max_len))
-      | None => true
-      end
+  | ERecvLt _ _ _ lb => Z.of_nat (length (lt_sh lb)) <=? c_cap c
   | _ => true
   end.
 
 Lemma add_lt_fatal : forall c p now from pub lb st,
   add_lt c p now from pub lb st = Fatal ->
-  exists h, lt_hdr lb = Some h /\ c_cap c < h_txcount h <= max_len.
+  c_cap c < lt_txcount lb <= Z.of_nat (length (lt_sh lb)).
 Proof.
   intros c p now from pub lb st H. unfold add_lt in H.
-  destruct (lt_hdr lb) as [h|]; [|discriminate]. exists h. split; [reflexivity|].
+  destruct ((lt_txcount lb <=? 0) || (Z.of_nat (length (lt_sh lb)) <? lt_txcount lb)) eqn:E0; [discriminate|].
+  apply orb_false_iff in E0 as [_ E0]. apply Z.ltb_ge in E0.
+  unfold lt_txcount in *.
+  destruct (lt_hdr lb) as [h|]; [|discriminate].
   unfold go_make in H.
   destruct ((h_txcount h <? 0) || (max_len <? h_txcount h)) eqn:E1; [discriminate|].
-  apply orb_false_iff in E1 as [_ E1]. apply Z.ltb_ge in E1.
   destruct (c_cap c <? h_txcount h) eqn:E2.
   - apply Z.ltb_lt in E2. lia.
   - destruct (set_nth _ 0 (lt_miner lb)); [|discriminate].
@@ -49,8 +48,7 @@ Proof.
   intros c st p ev U M. destruct ev; simpl in *; try discriminate.
   - unfold recv_lt_raw. destruct (mem_n (lt_hash lb) (st_filter st)); [eauto|].
     match goal with |- context [add_lt ?a ?b ?c0 ?d ?e ?f ?g] => destruct (add_lt a b c0 d e f g) as [[s e0]| |] eqn:E end; eauto.
-    apply add_lt_fatal in E as [h [Eh R]]. rewrite Eh in M.
-    apply negb_true_iff, andb_false_iff in M as [M|M]; [apply Z.ltb_ge in M|apply Z.leb_gt in M]; lia.
+    apply add_lt_fatal in E. apply Z.leb_le in M. lia.
   - destruct decodes; [|eauto]. destruct (add_req c st from height). eauto.
   - destruct (decodes && hasmsg); eauto.
   - eauto.
@@ -72,7 +70,7 @@ Proof.
         -- exact I.
       * inversion H; subst. exact I.
       * discriminate.
-  - unfold tick_raw in H. destruct (scan (c_noval c) p now (c_timeout c) (st_pend st)) as [[[k t] e0]| |] eqn:Es; try discriminate.
+  - unfold tick_raw in H. destruct (scan p now (c_timeout c) (st_pend st)) as [[[k t] e0]| |] eqn:Es; try discriminate.
     inversion H; subst. unfold pend_inv; simpl. eapply scan_keeps; eauto.
   - inversion H; subst; exact I.
   - inversion H; subst; exact I.
@@ -101,126 +99,52 @@ Qed.
 Lemma init_inv : forall Q, pend_inv Q init.
 Proof. intros Q. constructor. Qed.
 
-(** in every reachable state an iteration of the pending loop either completes
-    or panics at the group-expansion statement or (validation disabled) on the
-    nil validator *)
-Lemma tick_only_group : forall c p0 evs st p now,
-  run c init p0 evs = Some (st, p) ->
-  tick_raw c p now st <> Fatal
-  /\ (forall w, tick_raw c p now st = Panic w -> w = W_GROUP \/ (c_noval c = true /\ w = W_NILVAL)).
+Lemma inv_nil_in_range : forall st, pend_inv QTrue st -> Forall nil_in_range (st_pend st).
+Proof. intros st I. eapply Forall_impl; [|exact I]. intros a [A _]; exact A. Qed.
+
+(** with the invariant an iteration of the pending loop completes *)
+Lemma tick_ok_inv : forall c st p now,
+  pend_inv QTrue st -> exists st' e, tick_raw c p now st = Ok (st', e).
 Proof.
-  intros c p0 evs st p now H.
-  pose proof (run_inv_true c evs init p0 st p (init_inv _) H) as I.
-  unfold tick_raw. pose proof (scan_not_fatal (c_noval c) p now (c_timeout c) (st_pend st)) as NF.
-  destruct (scan (c_noval c) p now (c_timeout c) (st_pend st)) as [[[k t] e0]| |] eqn:Es; [|split|congruence]; try discriminate.
-  - split; [discriminate|]. intros w Hw; discriminate.
-  - intros w0 Hw; inversion Hw; subst. eapply scan_panic_kind; [|exact Es].
-    eapply Forall_impl; [|exact I]. intros a [A _]; exact A.
+  intros c st p now I. unfold tick_raw.
+  destruct (scan_ok p now (c_timeout c) (st_pend st) (inv_nil_in_range st I)) as [k [t [e Es]]].
+  rewrite Es. eauto.
 Qed.
 
-(** * groups that fit *)
-Fixpoint fits_b (p : pool) (shs : list N) (i : nat) (n : Z) : bool :=
-  match shs with
-  | [] => true
-  | k :: tl =>
-      (match pool_get k p with
-       | Some e => Z.of_nat i + Z.of_nat (length (members e)) <=? n
-       | None => true
-       end) && fits_b p tl (S i) n
-  end.
-
-Definition fits (p : pool) (lb : ltblock) : bool :=
-  match lt_hdr lb with
-  | None => true
-  | Some h => fits_b p (lt_sh lb) 0 (h_txcount h)
-  end.
-
-Lemma fits_b_spec : forall p shs i n, fits_b p shs i n = true ->
-  forall j k e, nth_error shs j = Some k -> pool_get k p = Some e ->
-                Z.of_nat (i + j) + Z.of_nat (length (members e)) <= n.
+(** in every reachable state an iteration of the pending loop completes: the
+    loop body has no panic site left *)
+Lemma tick_total : forall c p0 evs st p now,
+  run c init p0 evs = Some (st, p) -> exists st' e, tick_raw c p now st = Ok (st', e).
 Proof.
-  induction shs as [|s shs IH]; intros i n H j k e Hj Hp; [destruct j; discriminate|].
-  simpl in H. apply andb_true_iff in H as [H1 H2]. destruct j as [|j]; simpl in Hj.
-  - inversion Hj; subst. rewrite Hp in H1. apply Z.leb_le in H1. lia.
-  - specialize (IH _ _ H2 j k e Hj Hp). lia.
+  intros c p0 evs st p now H. apply tick_ok_inv.
+  exact (run_inv_true c evs init p0 st p (init_inv _) H).
 Qed.
 
-Lemma fits_fits_at : forall p lb h, fits p lb = true -> lt_hdr lb = Some h ->
-  fits_at p (lt_sh lb) (Z.to_nat (h_txcount h)).
+(** * no history ends the process *)
+Lemma step_alive : forall c st p ev,
+  pend_inv QTrue st -> mem_ok c ev = true -> exists st' p' e, step c st p ev = Alive st' p' e.
 Proof.
-  intros p lb h F Eh. unfold fits in F. rewrite Eh in F. intros i k e A B.
-  pose proof (fits_b_spec _ _ _ _ F i k e A B). lia.
+  intros c st p ev I M. destruct ev.
+  - apply recovered_total; [reflexivity|exact M].
+  - simpl. destruct (tick_ok_inv c st p now I) as [st' [e E]]. rewrite E. eauto.
+  - simpl. eauto.
+  - simpl. eauto.
+  - apply recovered_total; [reflexivity|exact M].
+  - apply recovered_total; [reflexivity|exact M].
+  - apply recovered_total; [reflexivity|exact M].
+  - simpl. destruct (req_scan c st (st_reqs st)); eauto.
 Qed.
 
-Definition lts_of (evs : list event) : list ltblock :=
-  flat_map (fun ev => match ev with ERecvLt _ _ _ lb => [lb] | _ => [] end) evs.
-Definition pools_of (p0 : pool) (evs : list event) : list pool :=
-  p0 :: flat_map (fun ev => match ev with EPool p => [p] | _ => [] end) evs.
-
-(** every pool of the history fits every light block of the history *)
-Definition fits_hist (p0 : pool) (evs : list event) : bool :=
-  forallb (fun p => forallb (fits p) (lts_of evs)) (pools_of p0 evs).
-
-Definition QFits (PS : list pool) (pd : pend) : Prop := forall p, In p PS -> pd_fits p pd.
-Lemma QFits_shape : forall PS, shape_pred (QFits PS).
+Lemma run_alive : forall c evs st p,
+  pend_inv QTrue st -> forallb (mem_ok c) evs = true -> run c st p evs <> None.
 Proof.
-  intros PS a b S L H p Hp. specialize (H p Hp). unfold pd_fits in *. rewrite S, L. exact H.
+  induction evs as [|ev evs IH]; intros st p I HM; simpl; [discriminate|].
+  simpl in HM. apply andb_true_iff in HM as [M HM].
+  destruct (step_alive c st p ev I M) as [st' [p' [e E]]]. rewrite E.
+  apply IH; [|exact HM].
+  eapply step_inv; [exact QTrue_shape| |exact I|exact E]. intros; exact Logic.I.
 Qed.
 
-Lemma run_fits : forall c PS evs st p,
-  c_noval c = false ->
-  pend_inv (QFits PS) st -> In p PS ->
-  (forall p', In (EPool p') evs -> In p' PS) ->
-  (forall now f pb lb q, In (ERecvLt now f pb lb) evs -> In q PS -> fits q lb = true) ->
-  (forall ev, In ev evs -> mem_ok c ev = true) ->
-  run c st p evs <> None.
-Proof.
-  induction evs as [|ev evs IH]; intros st p NV I Hp HP HL HM; simpl; [discriminate|].
-  assert (exists st' p' e, step c st p ev = Alive st' p' e /\ In p' PS) as [st' [p' [e [E Hp']]]].
-  { destruct ev; simpl.
-    - destruct (recovered_total c st p (ERecvLt now from pub lb) eq_refl (HM _ (or_introl eq_refl)))
-        as [s1 [p1 [e1 E]]]. simpl in E. exists s1, p, e1.
-      destruct (recv_lt_raw c p now from pub lb st) as [sa [[sb eb]| |]]; inversion E; subst; auto.
-    - unfold tick_raw. rewrite NV. destruct (scan_fits_ok p now (c_timeout c) (st_pend st)) as [k [t [e0 Es]]].
-      { eapply Forall_impl; [|exact I]. intros a [A B]. split; [exact A|apply B; exact Hp]. }
-      rewrite Es. eauto.
-    - exists st, p0, []. split; [reflexivity|]. apply HP. left; reflexivity.
-    - eauto.
-    - destruct decodes; [destruct (add_req c st from height)|]; eauto.
-    - destruct (decodes && hasmsg); eauto.
-    - eauto.
-    - destruct (req_scan c st (st_reqs st)); eauto. }
-  rewrite E. apply IH; auto.
-  - eapply step_inv; [apply QFits_shape| |exact I|exact E].
-    intros now from pub lb h pd Eev Eh S L q Hq. subst ev.
-    unfold pd_fits. rewrite S, L. apply fits_fits_at; [|exact Eh].
-    eapply HL; [left; reflexivity|exact Hq].
-  - intros q Hq. apply HP. right; exact Hq.
-  - intros now f pb lb q A B. eapply HL; [right; exact A|exact B].
-  - intros ev0 A. apply HM. right; exact A.
-Qed.
-
-Lemma in_pools_of : forall p0 evs p, In (EPool p) evs -> In p (pools_of p0 evs).
-Proof.
-  intros p0 evs p H. right. apply in_flat_map. exists (EPool p). split; [exact H|left; reflexivity].
-Qed.
-
-Lemma in_lts_of : forall evs now f pb lb, In (ERecvLt now f pb lb) evs -> In lb (lts_of evs).
-Proof.
-  intros evs now f pb lb H. apply in_flat_map. exists (ERecvLt now f pb lb). split; [exact H|left; reflexivity].
-Qed.
-
-Lemma no_crash_when_groups_fit : forall c p0 evs,
-  c_noval c = false ->
-  forallb (mem_ok c) evs = true -> fits_hist p0 evs = true -> run c init p0 evs <> None.
-Proof.
-  intros c p0 evs NV HM HF. unfold fits_hist in HF. rewrite forallb_forall in HF.
-  apply (run_fits c (pools_of p0 evs)).
-  - exact NV.
-  - apply init_inv.
-  - left; reflexivity.
-  - intros p' H. apply in_pools_of; exact H.
-  - intros now f pb lb q A B. specialize (HF q B). rewrite forallb_forall in HF.
-    apply HF. eapply in_lts_of; eauto.
-  - rewrite forallb_forall in HM. exact HM.
-Qed.
+Lemma no_crash : forall c p0 evs,
+  forallb (mem_ok c) evs = true -> run c init p0 evs <> None.
+Proof. intros c p0 evs HM. apply run_alive; [apply init_inv|exact HM]. Qed.
